@@ -202,7 +202,7 @@ func (e *Env) eval(ex Expr) Val {
 					if v, ok := e.pkgObject(p, ex.F); ok {
 						return v
 					}
-					e.errf("no %s.%s", id.Name, ex.F)
+					e.errf("unknown name %s.%s (no such package member, and no local of that name in scope)", id.Name, ex.F)
 				}
 			}
 		}
@@ -671,6 +671,14 @@ func (e *Env) call(c *CallE) Val {
 			e.errf("seen() outside a map range loop")
 		}
 		return boolTV(sel(it.seen, x.scalar(e.eval(c.Args[0]))))
+	case "as":
+		// as(err, T): errors.As(err, &t) with t of type T would succeed
+		t := x.P.resolveType(c.Args[1], e.tctx)
+		return boolTV(x.errAsT(x.scalar(e.eval(c.Args[0])), t.Go))
+	case "asval":
+		// asval(err, T): the value errors.As would store
+		t := x.P.resolveType(c.Args[1], e.tctx)
+		return x.asValOf(e.st, x.scalar(e.eval(c.Args[0])), t.Go)
 	case "typeis":
 		x.useIface()
 		v := x.scalar(e.eval(c.Args[0]))
